@@ -142,3 +142,52 @@ impl Read for SchedReader {
         Ok(n)
     }
 }
+
+
+/// scratch directory next to the harness executable (never /tmp)
+pub fn scratch_dir() -> std::path::PathBuf {
+    let exe = std::env::current_exe().expect("current_exe");
+    let dir = exe.parent().expect("exe dir").join("scratch");
+    std::fs::create_dir_all(&dir).expect("scratch dir");
+    dir
+}
+
+static PATH_COUNTER: std::sync::atomic::AtomicUsize = std::sync::atomic::AtomicUsize::new(0);
+
+/// `Beatmap::encode_to_path` / `from_path` must behave like `encode_to_string` / `from_bytes` whatever the file held
+/// before: the target is first filled with an OLDER, LONGER file (`text` followed by more object lines), then the map
+/// is saved over it, the file must then hold exactly `text`, and `from_path` must read back what `from_bytes(text)`
+/// reads. Returns a description of the first difference.
+pub fn path_roundtrip_check(m: &rosu_map::Beatmap, text: &str) -> Option<String> {
+    let n = PATH_COUNTER.fetch_add(1, std::sync::atomic::Ordering::Relaxed);
+    let path = scratch_dir().join(format!("{}-enc{}.osu", std::process::id(), n));
+    let mut old = text.as_bytes().to_vec();
+    old.extend_from_slice(b"\n[HitObjects]\n64,64,987654,1,0,0:0:0:0:\n96,64,987754,5,0,0:0:0:0:\n\n[Metadata]\nTitle:stale tail of an older file\n");
+    if std::fs::write(&path, &old).is_err() {
+        return None; // no scratch space: nothing observed
+    }
+    let res = m.clone().encode_to_path(&path);
+    let out = (|| {
+        if let Err(e) = res {
+            return Some(format!("encode_to_path err {}", kind_tag(e.kind())));
+        }
+        let on_disk = std::fs::read(&path).ok()?;
+        if on_disk != text.as_bytes() {
+            let common = on_disk.iter().zip(text.as_bytes()).take_while(|(a, b)| a == b).count();
+            return Some(format!(
+                "encode_to_path over an existing file leaves {} bytes, encode_to_string gives {} (first difference at byte {common})",
+                on_disk.len(),
+                text.len()
+            ));
+        }
+        let a = rosu_map::from_path::<rosu_map::Beatmap>(&path);
+        let b = rosu_map::from_bytes::<rosu_map::Beatmap>(text.as_bytes());
+        match (a, b) {
+            (Ok(a), Ok(b)) if a == b => None,
+            (Err(_), Err(_)) => None,
+            _ => Some("from_path of the saved file differs from from_bytes of the encoded text".to_owned()),
+        }
+    })();
+    let _ = std::fs::remove_file(&path);
+    out
+}
